@@ -223,11 +223,12 @@ def r6_statistic_table(ctx):
             den = [unparse(a.value) for a in x.body if isinstance(a, ast.Assign) and "values" in unparse(a.value)]
             if den:
                 got[const_str(x.test.comparators[0])] = den[0]
-    got_n = dict(got)
-    if "maxabs" in got_n:  # the shifted magnitude may be written in several equivalent ways; normalise the generator variable
-        got_n["maxabs"] = alpha(got_n["maxabs"]) if "alpha" in globals() else got_n["maxabs"]
-        got_n["maxabs"] = {"max((abs(shift + v) for v in values))": want_scale["maxabs"], "max(map(lambda v: abs(v + shift), values))": want_scale["maxabs"]}.get(got["maxabs"], got["maxabs"])
-    ctx.ob("C11.R6", EF, "Scale._scale_value", sc, "scale keywords map to max-min / stdev / iqr / max|x+shift| of the values (one argument each)", got_n == want_scale, detail={"table": got}, stmt="scale table")
+    from ..util import alpha
+    got_n = {k: alpha(v) for k, v in got.items()}        # comprehension variables compared up to renaming
+    want_n = {k: alpha(v) for k, v in want_scale.items()}
+    if got_n.get("maxabs") in (alpha("max((abs(shift + v) for v in values))"), alpha("max(map(lambda v: abs(v + shift), values))")):
+        got_n["maxabs"] = want_n["maxabs"]
+    ctx.ob("C11.R6", EF, "Scale._scale_value", sc, "scale keywords map to max-min / stdev / iqr / max|x+shift| of the values (one argument each)", got_n == want_n, detail={"table": got}, stmt="scale table")
     # the shifted value is formed with the + operator: a bound dunder (shift.__add__) does not coerce, (0).__add__(1.5) is NotImplemented
     dunders = [x for x in ast.walk(sc) if isinstance(x, ast.Attribute) and x.attr in ("__add__", "__radd__", "__sub__", "__mul__", "__truediv__")]
     ctx.ob("C11.R6", EF, "Scale._scale_value", dunders[0] if dunders else sc, "arithmetic on the window's values uses operators, not bound dunder methods (no numeric coercion: int shift + float value fails)",
@@ -344,11 +345,17 @@ def r10_apply_guards(ctx):
     ctx.floor("C11.R10", "apply statements (x + shift) * scale in Scale.filter", n, 3)
     imf = ctx.fn(EF, "Impute.filter")
     m = 0
-    for st in [x for x in ast.walk(imf) if isinstance(x, ast.Assign) and isinstance(x.value, ast.Subscript) and unparse(x.value.value) == "imputations"
-               and isinstance(x.targets[0], ast.Subscript) and unparse(x.targets[0].value) == "context"]:
+    # roles: the per-interaction context (bound to <interaction>['context']) and the statistics table (a dict filled from self._get_imputation)
+    ctxs = {t.id for x in ast.walk(imf) if isinstance(x, ast.Assign) and isinstance(x.value, ast.Subscript) and const_str(x.value.slice) == "context" for t in x.targets if isinstance(t, ast.Name)}
+    one = {t.id for x in ast.walk(imf) if isinstance(x, ast.Assign) and isinstance(x.value, ast.Call) and call_tail(x.value) == "_get_imputation" for t in x.targets if isinstance(t, ast.Name)}
+    tabs = {x.targets[0].value.id for x in ast.walk(imf) if isinstance(x, ast.Assign) and isinstance(x.targets[0], ast.Subscript) and isinstance(x.targets[0].value, ast.Name)
+            and isinstance(x.value, ast.Name) and x.value.id in one}
+    for st in [x for x in ast.walk(imf) if isinstance(x, ast.Assign) and isinstance(x.value, ast.Subscript) and isinstance(x.value.value, ast.Name) and x.value.value.id in tabs
+               and isinstance(x.targets[0], ast.Subscript) and isinstance(x.targets[0].value, ast.Name) and x.targets[0].value.id in ctxs]:
         m += 1
-        k = unparse(x.value.slice) if False else unparse(st.value.slice)
-        ok = any(pol and unparse(t) == f"{k} in imputations" for t, pol in all_guards(st, imf)) and any(pol and unparse(t).endswith("is None") for t, pol in all_guards(st, imf))
+        k = unparse(st.value.slice)
+        T_ = st.value.value.id
+        ok = any(pol and unparse(t) == f"{k} in {T_}" for t, pol in all_guards(st, imf)) and any(pol and unparse(t).endswith("is None") for t, pol in all_guards(st, imf))
         ctx.ob("C11.R10", EF, "Impute.filter", st, "a value is replaced only if it is missing and a statistic exists for its feature", ok, detail={"key": k})
     ctx.floor("C11.R10", "replacement statements in Impute.filter", m, 2)
 
